@@ -149,14 +149,16 @@ func (g *c34Gen) command(depth int, unsafeOK bool) string {
 	return c
 }
 
-var c34Seps = []string{" | ", "|", " -> ", "->", "; ", ";", " && ", "&&", " || ", "||", " => ", "=>", "\n", " ? ", " |> c34.txt; ", " >> c34.txt; ", "|>c34.txt;", " ?: ", " ?? ", " ;", " |", " ->", " ~> c34.txt; ", "~>c34.txt;", "->", "=>"}
+var c34Seps = []string{" | ", "|", " -> ", "->", "; ", ";", " && ", "&&", " || ", "||", " => ", "=>", "\n", " ? ", " |> c34.txt; ", " >> c34.txt; ", "|>c34.txt;", " ?: ", " ?? ", " ;", " |", " ->", " ~> c34.txt; ", "~>c34.txt;", "->", "=>",
+	// `?` is the stderr pipe when either neighbour is a space or a tab, a glob character otherwise
+	"?\t", "\t?", "? ", " ?", "\t?\t", "?", "?\t", "\t?"}
 
 func (g *c34Gen) line(depth, n int) string {
 	var b strings.Builder
 	for i := 0; i < n; i++ {
 		if i > 0 {
 			sep := c34Seps[g.r.Intn(len(c34Seps))]
-			if strings.Contains(sep, "c34.txt") || sep == "\n" || sep == " ? " {
+			if strings.Contains(sep, "c34.txt") || sep == "\n" || (strings.Contains(sep, "?") && sep != "?" && sep != " ?: " && sep != " ?? ") {
 				g.unsafe++
 			}
 			b.WriteString(sep)
